@@ -24,6 +24,7 @@ structure Inv (cfg : Cfg) (s : State) : Prop where
   flag_st : s.flag = true → s.data = complete cfg ∧ s.runs = 1
   read_st : ∀ i, s.pc i = .read → s.flag = true
   done_st : ∀ i obs, s.pc i = .done obs → obs = complete cfg ∧ s.flag = true
+  runs_le : s.runs ≤ 1
 
 theorem inv_init (cfg : Cfg) : Inv cfg init := by
   constructor <;> simp [init, Quiescent]
@@ -45,7 +46,7 @@ macro "dcl_close" : tactic =>
   `(tactic| (constructor <;> simp only [upd, Quiescent, complete] at * <;> grind))
 
 theorem inv_step {cfg : Cfg} (safe : cfg.Safe) {s t : State} (h : Inv cfg s) (st : Step cfg s t) : Inv cfg t := by
-  obtain ⟨h2, h3, h4, h5, h6, h7, h8, h9⟩ := h
+  obtain ⟨h2, h3, h4, h5, h6, h7, h8, h9, h10⟩ := h
   have ho := safe.order
   cases st with
   | fast_hit i hpc hf => dcl_close
